@@ -215,7 +215,10 @@ H_ETransfer(s, r, l) ==
                       !.sendq = IF qi > 0 THEN [@ EXCEPT ![qi].did = f.did, ![qi].presettled = (f.settled = "t"), ![qi].tag = (IF f.tagn >= 0 THEN f.tag ELSE <<>>)] ELSE @]
   IN R(SetL(SetS(s, i, x2), k, y2),
          Chk("C07_WindowSafety", strictOK, l, IF devOK THEN "dev_ok" ELSE "dev_bad")
-       + Chk("C11_DeliveryIdIncreasing", ~first \/ (f.did >= 0 /\ f.did > x.lastDid), l, "")
+       \* (detail queued_at_detach: the open C13 finding seen from here -- transfers of an earlier attachment of this handle were still waiting for the
+       \*  session window when its detach was written; they are sent now and look like frames of the new attachment)
+       + Chk("C11_DeliveryIdIncreasing", ~first \/ (f.did >= 0 /\ f.did > x.lastDid), l,
+             IF \E j \in DOMAIN s.ls : j < k /\ s.ls[j].ech = y.ech /\ s.ls[j].eh = y.eh /\ s.ls[j].eDet /\ s.ls[j].detQueued THEN "queued_at_detach" ELSE "")
        + Chk("C11_ContinuationId", first \/ f.did = -1 \/ f.did = y.curDid, l, "")
        + Chk(IF y.cancels > 0 THEN "C16_NeverPartial" ELSE "C11_DeliveryAbandoned", ~abandoned, l, IF y.cancels > 0 /\ s.roomy THEN "roomy" ELSE "")
        + Chk("C08_SenderRole", y.eutSender, l, "")
@@ -578,7 +581,8 @@ H_ApiRet(s, r, l) ==
   ELSE IF r.op = "dispose" /\ r.res.ok THEN
        LET k == LinkByName(s, r.lname, FALSE) IN
        IF k = 0 THEN R(s, 0) ELSE R(SetL(s, k, [s.ls[k] EXCEPT !.held = Max(0, @ - s.ls[k].dispN)]), 0)
-  ELSE IF r.op \in {"send", "send_batchable", "recv"} /\ ~r.res.ok /\ r.lname # "" /\ PeerDetachedWithError(s, r.lname) > 0 THEN
+  \* (an attach that the peer refuses -- it answers and closes the link with an error -- fails with that error too)
+  ELSE IF r.op \in {"send", "send_batchable", "recv", "attach_sender", "attach_receiver"} /\ ~r.res.ok /\ r.lname # "" /\ PeerDetachedWithError(s, r.lname) > 0 THEN
        LET k == PeerDetachedWithError(s, r.lname) IN
        R(SetL(s, k, [s.ls[k] EXCEPT !.errTold = TRUE, !.sendsIssued = IF @ > s.ls[k].delsDone THEN @ - 1 ELSE @]),
          Chk("C13_PeerError", r.res.cond = s.ls[k].pDetErr \/ (s.appTeardown /\ r.res.says_sess), l, r.op))
